@@ -20,6 +20,7 @@ def solve_cases(draw):
         method = draw(st.sampled_from(NLP_METHODS + ["SLSQP", "auto"]))
     return {"model": model, "method": method,
             "edit": draw(st.sampled_from([None, None, "tighten-ub", "tighten-lb"])),
+            "resolve": draw(st.integers(0, 2)) == 0,
             "param_con": draw(st.sampled_from([None, None, None, "true", "false"])) if fam == "cvx" else None}
 
 
@@ -28,6 +29,7 @@ def sample_repr(case):
     d["method"] = case["method"]
     d["family"] = case["model"]["family"]
     d["edit"] = case.get("edit")
+    d["resolve"] = case.get("resolve")
     d["param_con"] = case.get("param_con")
     return d
 
